@@ -327,7 +327,7 @@ impl Prop for C15 {
             Tier::Thorough => 30_000,
         }
     }
-    fn run_case(&self, _cfg: &RunCfg, idx: usize, rng: &mut Rng, out: &mut Out) {
+    fn run_case(&self, cfg: &RunCfg, idx: usize, rng: &mut Rng, out: &mut Out) {
         if idx % 8 == 7 {
             for _ in 0..4 {
                 preseeded(rng, out);
@@ -341,6 +341,9 @@ impl Prop for C15 {
         gcfg.fault_pct = 10;
         gcfg.print = false;
         gcfg.forward_refs = rng.chance(1, 4);
+        if cfg.tier == Tier::Thorough && gcfg.deepen(rng) {
+            out.feat("deep_bounds(depth<=6,stanzas<=12)");
+        }
         let case = build_case(rng, &gcfg, 35, 10, 8);
         let tree = parse_python(&case.source);
         let ti = TreeInfo::new(&tree);
